@@ -21,13 +21,23 @@ Entry == [op |-> cur'.op, f |-> cur'.f, s |-> cur'.s, v |-> ret'.v, rf |-> ret'.
 
 GenInit == Init /\ hist = <<>>
 
-GenNext ==
-  /\ Next
-  /\ IF ~cur'.active
-     THEN /\ hist' = Append(hist, Entry)
-          /\ PrintT(ToJson([ci |-> ci, opt |-> opt, hist |-> hist', snap |-> Snap',
-                                 viz |-> Picture', vizerr |-> PictureErr(ret')]))
-     ELSE hist' = hist
+Emit ==
+  IF ~cur'.active
+  THEN /\ hist' = Append(hist, Entry)
+       /\ PrintT(ToJson([ci |-> ci, opt |-> opt, hist |-> hist', snap |-> Snap',
+                         viz |-> Picture', vizerr |-> PictureErr(ret')]))
+  ELSE hist' = hist
+
+\* one named action per action of Dig, so that TLC's coverage is reported per action
+GCreateScope == (\E s \in Scopes : CreateScope(s)) /\ Emit
+GProvide     == (\E f \in Fns : Provide(f)) /\ Emit
+GDecorate    == (\E f \in Fns : Decorate(f)) /\ Emit
+GBeginInvoke == (\E i \in Fns, s \in Scopes : BeginInvoke(i, s)) /\ Emit
+GDescend     == Descend /\ Emit
+GUnwind      == Unwind /\ Emit
+GExec        == (\E o \in {"ok", "err", "panic"} : Exec(o)) /\ Emit
+
+GenNext == GCreateScope \/ GProvide \/ GDecorate \/ GBeginInvoke \/ GDescend \/ GUnwind \/ GExec
 
 GenSpec == GenInit /\ [][GenNext]_<<vars, hist>>
 
